@@ -2,6 +2,7 @@ import Driver.Util
 import Driver.Ssbs
 import ESV.Comp.Backend
 import ESV.Comp.LabSem
+import ESV.Comp.FrontW13
 import ESV.SsbScript.Closed
 open Lean Drv ESV ESV.Comp
 
@@ -132,7 +133,7 @@ def handle (op : String) (j : Json) : R Json := do
     | .error e => pure (Json.mkObj [("error", .str e.name)])
     | .ok t =>
       let rs := t.ops
-      pure (Json.mkObj [("wfl", .bool (decide (WFL rs))), ("distinct", .bool (decide (DistinctOffsets rs))),
+      pure (Json.mkObj [("wfl", .bool (decide (WFL rs))), ("guard", .bool (decide (FrontGuard p))), ("distinct", .bool (decide (DistinctOffsets rs))),
         ("labels", .bool (decide (labelIds rs.flatten).Nodup)), ("raw", .bool (rs.flatten.all rawOK)),
         ("root", .bool (rs.flatten.all rootOK)), ("ctx", .bool (rs.all ctxOK)), ("cond", .bool (rs.all condOK))])
   | "comp.backend" =>
